@@ -88,10 +88,42 @@ def check(run):
     run.floor('C15-MIRROR', nst, 150)
     run.attempt(artefacts, run, p, fc)
     run.attempt(cmdfiles, run, p, fc)
+    run.attempt(defaults, run, p)
     run.attempt(rawlines, run, p, fc)
     run.attempt(tmpcfg, run, p, rt, fc)
     run.attempt(emptycontent, run, p, fc)
     run.attempt(sameguide, run, p, fc)
+
+
+def defaults(run, p):
+    """the temporary directory configured for a test class is the one its failures are written to: class-level settings are stored
+    on the class they are set through"""
+    run.rule('C15-DEFAULTS', 'a default set through a class (set_defaults(tmp_dir=...), set_default ...) is stored on that class: in every '
+                             'classmethod of ReferenceTest each attribute store and each setattr targets the method\'s own class parameter, '
+                             'never a class named in the code (a value stored on the shared base class would send one test class\'s '
+                             'failure artefacts to the directory configured for another)')
+    rt = p.cls('ReferenceTest')
+    n = 0
+    for name, m in sorted(rt.methods.items()):
+        if not m.is_classmethod or not m.posparams:
+            continue
+        clsname = m.posparams[0]
+        for x in p.own_nodes(m):
+            tgt = None
+            if isinstance(x, ast.Attribute) and isinstance(x.ctx, ast.Store) and isinstance(x.value, ast.Name):
+                tgt = x.value.id
+            elif isinstance(x, ast.Call) and getattr(x.func, 'id', '') == 'setattr' and x.args and isinstance(x.args[0], ast.Name):
+                tgt = x.args[0].id
+            if tgt is None:
+                continue
+            n += 1
+            sy = m.mod.syms.get(tgt)
+            named_class = sy is not None and sy.kind == 'class'
+            ok = tgt == clsname or not named_class
+            run.ob('C15-DEFAULTS', '%s::%s::%s' % (m.rel, m.short, norm(x)[:40]), ok,
+                   '%s stores %s on %s' % (m.short, norm(x)[:50], 'the class it was called on' if tgt == clsname else
+                                          ('the class %s, whichever class it was called on' % tgt if named_class else tgt)), fn=m, node=x)
+    run.floor('C15-DEFAULTS', n, 3)
 
 
 def cmdfiles(run, p, fc):
